@@ -14,4 +14,5 @@ void registerAll()
     reg_life();
     reg_lifed();
     reg_tls();
+    reg_tlsraw();
 }
